@@ -2,7 +2,7 @@
    gave to the real functions and reports the indices of cases whose observed result differs
    (trees compared after [norm]: key-sorted). *)
 From Coq Require Import List String Bool Arith ZArith.
-From Helm Require Import Common.Strs Values.Tree Values.Merge Values.Coalesce Values.Strvals Values.Options.
+From Helm Require Import Common.Strs Values.Tree Values.Merge Values.Coalesce Values.Strvals Values.Options Values.Strvals2.
 Import ListNotations.
 
 (* RErrD: an error, with the destination as the call left it (strvals entry points only) *)
@@ -38,6 +38,11 @@ Inductive capi := ACoalesceValues | AMergeValues | AToRenderValues.
 
 Inductive pfn := PInto | PIntoString | PJson | PLiteral | PFile.
 
+(* round 4: the entry points of pkg/strvals as Values/Strvals2.v models them; P2Parse … = the
+   variants that start from a fresh map (Parse, ParseString, ParseLiteral, ParseFile) *)
+Inductive pfn2 := P2Into | P2IntoString | P2Json | P2Literal | P2File
+                | P2Parse | P2ParseString | P2ParseLiteral | P2ParseFile.
+
 Inductive case :=
 | CFiles (files : list vmap) (obs : res)                          (* Options.MergeValues, -f only *)
 | CMergeMaps (a b : vmap) (obs : res)                             (* loader.MergeMaps *)
@@ -45,7 +50,14 @@ Inductive case :=
 | CTables (merge : bool) (dst src : vmap) (obs : res)             (* CoalesceTables / MergeTables *)
 | COpts (o : options) (obs : res)                                 (* Options.MergeValues, all flag families *)
 | CParse (fn : pfn) (s : string) (dest : vmap) (files : list (string * string))
-         (jdec : list (nat * (val * nat))) (obs : res).           (* strvals.ParseInto & co; obs = dest afterwards *)
+         (jdec : list (nat * (val * nat))) (obs : res)            (* strvals.ParseInto & co; obs = dest afterwards *)
+(* the same through Values/Strvals2.v: [rtab] = every call of the RunesValueReader callback the
+   real parse made (argument -> result, ok); [jdec] = the JSON decode table; [onames] = the paths
+   the generator printed the expression from (when it knows them), compared with [names_of] *)
+| CParse2 (fn : pfn2) (s : string) (dest : vmap) (rtab : list (string * (val * bool)))
+          (jdec : list (nat * (val * nat))) (onames : option (list (list step))) (obs : res)
+(* … observed through deep paths only (for results too large to print, e.g. a[65536]) *)
+| CProbe (fn : pfn2) (s : string) (dest : vmap) (probes : list (list step * option val)) (err : bool).
 
 Definition of_opt (o : option vmap) : res := match o with Some m => ROk (VMap m) | None => RErr end.
 
@@ -66,11 +78,14 @@ Definition model (c : case) : res :=
                        | PLiteral => parse_literal_into s dest
                        | PFile => parse_into_file files s dest
                        end))
+  | CParse2 _ _ _ _ _ _ _ | CProbe _ _ _ _ _ => RErr        (* compared by case_ok below *)
   end.
 
 Definition observed (c : case) : res :=
   match c with
   | CFiles _ o | CMergeMaps _ _ o | CCoalesce _ _ _ o | CTables _ _ _ o | COpts _ o | CParse _ _ _ _ _ o => o
+  | CParse2 _ _ _ _ _ _ o => o
+  | CProbe _ _ _ _ _ => RErr
   end.
 
 Definition parse_cfg (fn : pfn) (files : list (string * string)) (jdec : list (nat * (val * nat))) : pcfg :=
@@ -92,8 +107,61 @@ Definition parse_model (fn : pfn) (s : string) (dest : vmap) (files : list (stri
   | PFile => parse_into_file files s dest
   end.
 
+Definition mode_of (fn : pfn2) : pmode :=
+  match fn with
+  | P2Into | P2Parse => MTyped
+  | P2IntoString | P2ParseString => MString
+  | P2Json => MJson
+  | P2Literal | P2ParseLiteral => MLiteral
+  | P2File | P2ParseFile => MFile
+  end.
+
+Definition parse_model2 (fn : pfn2) (s : string) (dest : vmap) (rtab : list (string * (val * bool)))
+                        (jdec : list (nat * (val * nat))) : pres :=
+  parse2 (mode_of fn) (rdr_of_table rtab) (jdec_of_table jdec) s dest.
+
+Definition step_eqb (a b : step) : bool :=
+  match a, b with
+  | SKey x, SKey y => String.eqb x y
+  | SIdx i, SIdx j => Z.eqb i j
+  | _, _ => false
+  end.
+
+Fixpoint list_eqb {A} (eqb : A -> A -> bool) (l1 l2 : list A) : bool :=
+  match l1, l2 with
+  | [], [] => true
+  | x :: t1, y :: t2 => eqb x y && list_eqb eqb t1 t2
+  | _, _ => false
+  end.
+
+Definition names_ok (fn : pfn2) (s : string) (rtab : list (string * (val * bool))) (jdec : list (nat * (val * nat)))
+                    (onames : option (list (list step))) : bool :=
+  match onames with
+  | None => true
+  | Some ns => list_eqb (list_eqb step_eqb) (names_of (mode_of fn) (rdr_of_table rtab) (jdec_of_table jdec) s) ns
+  end.
+
+(* the top-level keys the pairs of the expression start with, read off the string alone *)
+Definition heads2 (fn : pfn2) (s : string) (rtab : list (string * (val * bool))) (jdec : list (nat * (val * nat))) : list string :=
+  flat_map (fun p => match p with SKey k :: _ => [k] | _ => [] end)
+           (names_of (mode_of fn) (rdr_of_table rtab) (jdec_of_table jdec) s).
+
 Definition case_ok (c : case) : bool :=
   match c with
+  | CParse2 fn s dest rtab jdec onames obs =>
+      names_ok fn s rtab jdec onames &&
+      match parse_model2 fn s dest rtab jdec, obs with
+      | POk d, ROk v => val_equiv_b (VMap d) v
+      | PErr d', RErrD after =>
+          frame_ok (heads2 fn s rtab jdec) dest after && frame_ok (heads2 fn s rtab jdec) dest (VMap d')
+      | _, _ => false
+      end
+  | CProbe fn s dest probes err =>
+      match parse_model2 fn s dest [] [] with
+      | POk d => negb err && forallb (fun pr => opt_equiv (dget (fst pr) (VMap d)) (snd pr)) probes
+      | PErr _ => err
+      | PFuel => false
+      end
   | CParse fn s dest files jdec obs =>
       match parse_model fn s dest files jdec, obs with
       | POk d, ROk v => val_equiv_b (VMap d) v
